@@ -61,7 +61,10 @@ package netpoll
 //@ pred wfcaches(b *UnsafeLinkBuffer) = len(b.caches) >= 0 && (b.caches != nil ==> allocated(b.caches)) && (forall i int {b.caches[i]#arr}{b.caches[i]#base}{b.caches[i]#cap} :: 0 <= i && i < len(b.caches) ==> cacheok(b, i))
 //@     && (b.cachePeek != nil ==> cacheown[b.cachePeek#arr] == nil)
 //@ pred wfhead(b *UnsafeLinkBuffer) = forall n *linkBufferNode :: inb(b, n) ==> n.ord >= b.head.ord
-//@ pred wfs(b *UnsafeLinkBuffer) = wfcaches(b) && wfhead(b) && wfcur(b) && wflin(b) && wfclosed(b) && wfuniq(b) && wfnode(b) && wfshape(b) && wfpos(b)
+// stream positions grow along the chain
+//@ pred wfmono(b *UnsafeLinkBuffer) = forall n *linkBufferNode, m *linkBufferNode {n.sp, m.sp} ::
+//@     inb(b, n) && inb(b, m) && b.read.ord <= n.ord && n.ord < m.ord && m.ord <= b.write.ord ==> n.sp + n.malloc <= m.sp + m.off
+//@ pred wfs(b *UnsafeLinkBuffer) = wfmono(b) && wfcaches(b) && wfhead(b) && wfcur(b) && wflin(b) && wfclosed(b) && wfuniq(b) && wfnode(b) && wfshape(b) && wfpos(b)
 //@     && wfref(b) && wfpool(b) && wfpeek(b)
 //@ pred wfcnt(b *UnsafeLinkBuffer, d int) = b.length == fpos(b) - rpos(b) - d && b.mallocSize == mpos(b) - fpos(b)
 //@ pred wf(b *UnsafeLinkBuffer) = wfs(b) && wfcnt(b, 0)
@@ -102,6 +105,7 @@ package netpoll
 //@ func (*UnsafeLinkBuffer).Skip
 //@   property C01 C04 C16
 //@   requires wf(b)
+//@   ensures wf(b)
 //@   ensures old(n <= 0) ==> err == nil && unchanged(UnsafeLinkBuffer.length, UnsafeLinkBuffer.read, linkBufferNode.off, UnsafeLinkBuffer.cachePeek)
 //@   ensures old(n > 0 && b.length < n) ==> err != nil && unchanged(UnsafeLinkBuffer.length, UnsafeLinkBuffer.read, linkBufferNode.off, UnsafeLinkBuffer.cachePeek)
 //@   ensures old(n > 0 && b.length >= n) ==> err == nil && wf(b) && rpos(b) == old(rpos(b)) + n && b.length == old(b.length) - n
@@ -142,6 +146,7 @@ package netpoll
 //@ func (*UnsafeLinkBuffer).Next
 //@   property C01 C02
 //@   requires wf(b)
+//@   ensures wf(b)
 //@   ensures old(n <= 0) ==> err == nil && len(p) == 0 && unchanged(UnsafeLinkBuffer.length, UnsafeLinkBuffer.read, linkBufferNode.off, UnsafeLinkBuffer.cachePeek, UnsafeLinkBuffer.caches, linkBufferNode.mode)
 //@   ensures old(n > 0 && b.length < n) ==> err != nil && unchanged(UnsafeLinkBuffer.length, UnsafeLinkBuffer.read, linkBufferNode.off, UnsafeLinkBuffer.cachePeek, UnsafeLinkBuffer.caches, linkBufferNode.mode)
 //@   ensures old(n > 0 && b.length >= n) ==> err == nil && len(p) == n && wf(b) && rpos(b) == old(rpos(b)) + n && b.length == old(b.length) - n
@@ -158,6 +163,7 @@ package netpoll
 //@ func (*UnsafeLinkBuffer).Peek
 //@   property C01 C02
 //@   requires wf(b)
+//@   ensures wf(b)
 //@   ensures old(n <= 0) ==> err == nil && len(p) == 0 && unchanged(UnsafeLinkBuffer.read, UnsafeLinkBuffer.cachePeek, linkBufferNode.mode)
 //@   ensures old(n > 0 && b.length < n) ==> err != nil && unchanged(UnsafeLinkBuffer.read, UnsafeLinkBuffer.cachePeek, linkBufferNode.mode)
 //@   ensures old(n > 0 && b.length >= n) ==> err == nil && len(p) == n && wf(b) && rpos(b) == old(rpos(b))
@@ -172,6 +178,7 @@ package netpoll
 //@ func (*UnsafeLinkBuffer).ReadByte
 //@   property C01
 //@   requires wf(b)
+//@   ensures wf(b)
 //@   ensures old(b.length < 1) ==> err != nil && unchanged(UnsafeLinkBuffer.length, UnsafeLinkBuffer.read, linkBufferNode.off, UnsafeLinkBuffer.cachePeek)
 //@   ensures old(b.length >= 1) ==> err == nil && wf(b) && rpos(b) == old(rpos(b)) + 1 && b.length == old(b.length) - 1
 //@   ensures forall m *linkBufferNode :: !inb(b, m) ==> m.off == old(m.off)
@@ -193,6 +200,7 @@ package netpoll
 //@ func (*UnsafeLinkBuffer).ReadBinary
 //@   property C01 C03
 //@   requires wf(b)
+//@   ensures wf(b)
 //@   ensures old(n <= 0) ==> err == nil && len(p) == 0 && unchanged(UnsafeLinkBuffer.length, UnsafeLinkBuffer.read, linkBufferNode.off, UnsafeLinkBuffer.cachePeek)
 //@   ensures old(n > 0 && b.length < n) ==> err != nil && unchanged(UnsafeLinkBuffer.length, UnsafeLinkBuffer.read, linkBufferNode.off, UnsafeLinkBuffer.cachePeek)
 //@   ensures old(n > 0 && b.length >= n) ==> err == nil && len(p) == n && fresh(p) && wf(b) && rpos(b) == old(rpos(b)) + n && b.length == old(b.length) - n
@@ -202,6 +210,7 @@ package netpoll
 //@ func (*UnsafeLinkBuffer).ReadString
 //@   property C01 C03
 //@   requires wf(b)
+//@   ensures wf(b)
 //@   ensures old(n <= 0) ==> err == nil && len(s) == 0 && unchanged(UnsafeLinkBuffer.length, UnsafeLinkBuffer.read, linkBufferNode.off, UnsafeLinkBuffer.cachePeek)
 //@   ensures old(n > 0 && b.length < n) ==> err != nil && unchanged(UnsafeLinkBuffer.length, UnsafeLinkBuffer.read, linkBufferNode.off, UnsafeLinkBuffer.cachePeek)
 //@   ensures old(n > 0 && b.length >= n) ==> err == nil && len(s) == n && wf(b) && rpos(b) == old(rpos(b)) + n && b.length == old(b.length) - n
@@ -248,9 +257,10 @@ package netpoll
 //@ func (*UnsafeLinkBuffer).Malloc
 //@   property C01 C02
 //@   requires wf(b)
+//@   ensures wf(b)
 //@   ensures old(n <= 0) ==> err == nil && len(buf) == 0 && unchanged(UnsafeLinkBuffer.mallocSize, UnsafeLinkBuffer.write, linkBufferNode.malloc, linkBufferNode.next)
 //@   ensures old(n > 0) ==> err == nil && len(buf) == n && wf(b) && others(b)
-//@   ensures old(n > 0) ==> b.mallocSize == old(b.mallocSize) + n && b.length == old(b.length) && rpos(b) == old(rpos(b)) && fpos(b) == old(fpos(b))
+//@   ensures err == nil && others(b) && b.length == old(b.length) && rpos(b) == old(rpos(b)) && fpos(b) == old(fpos(b)) && (old(n > 0) ==> b.mallocSize == old(b.mallocSize) + n) && (old(n <= 0) ==> b.mallocSize == old(b.mallocSize))
 //@   ensures old(n > 0) ==> buf#arr == b.write.buf#arr && buf#base == b.write.buf#base + b.write.malloc - n && b.write.mode & 1 == 0
 //@   ensures samepool()
 //@   modifies b.mallocSize, b.write, linkBufferNode.next, linkBufferNode.malloc, linkBufferNode.own, linkBufferNode.ord, linkBufferNode.sp, pool, blknode, cacheown, cacheidx
@@ -262,6 +272,7 @@ package netpoll
 //@ func (*UnsafeLinkBuffer).MallocAck
 //@   property C01 C16
 //@   requires wf(b) && n <= b.mallocSize
+//@   ensures wf(b)
 //@   ensures old(n < 0) ==> err != nil && unchanged(UnsafeLinkBuffer.mallocSize, UnsafeLinkBuffer.write, linkBufferNode.malloc, linkBufferNode.refer, linkBufferNode.buf)
 //@   ensures old(n >= 0) ==> err == nil && wf(b) && others(b) && b.mallocSize == n && b.length == old(b.length) && rpos(b) == old(rpos(b)) && fpos(b) == old(fpos(b))
 //@   modifies b.mallocSize, b.write, linkBufferNode.malloc, linkBufferNode.refer, linkBufferNode.buf
@@ -278,12 +289,13 @@ package netpoll
 //@ func (*UnsafeLinkBuffer).Flush
 //@   property C01 C04 C16
 //@   requires wf(b)
+//@   ensures wf(b)
 //@   ensures err == nil && wf(b) && others(b) && b.mallocSize == 0 && b.length == old(b.length) + old(b.mallocSize)
 //@   ensures rpos(b) == old(rpos(b)) && fpos(b) == old(mpos(b))
 //@   ensures samepool()
 //@   modifies b.mallocSize, b.write, b.flush, b.length, linkBufferNode.next, linkBufferNode.buf, linkBufferNode.own, linkBufferNode.ord, linkBufferNode.sp, pool, blknode, cacheown, cacheidx
 //@   ghost after store next#1: attach(b, b.write, value)
-//@   loop 1 invariant samepool() && wfcaches(b) && wfhead(b) && wfref(b) && wfpool(b) && wfpeek(b) && wfcur(b) && wflin(b) && wfclosed(b) && wfuniq(b) && wfnode(b) && wfpos(b) && others(b) && b.flush == old(b.flush)
+//@   loop 1 invariant samepool() && wfmono(b) && wfcaches(b) && wfhead(b) && wfref(b) && wfpool(b) && wfpeek(b) && wfcur(b) && wflin(b) && wfclosed(b) && wfuniq(b) && wfnode(b) && wfpos(b) && others(b) && b.flush == old(b.flush)
 //@   loop 1 invariant b.length == old(b.length) && rpos(b) == old(rpos(b)) && mpos(b) == old(mpos(b)) && n >= 0
 //@   loop 1 invariant node != b.write.next ==> inb(b, node) && b.flush.ord <= node.ord && node.ord <= b.write.ord && n == node.sp + len(node.buf) - old(fpos(b))
 //@   loop 1 invariant node == b.write.next ==> n == mpos(b) - old(fpos(b))
@@ -295,8 +307,9 @@ package netpoll
 //@ func (*UnsafeLinkBuffer).WriteBinary
 //@   property C01 C03
 //@   requires wf(b)
+//@   ensures wf(b)
 //@   ensures old(len(p) == 0) ==> n == 0 && err == nil && unchanged(UnsafeLinkBuffer.mallocSize, UnsafeLinkBuffer.write, linkBufferNode.malloc, linkBufferNode.next, linkBufferNode.buf)
-//@   ensures old(len(p) > 0) ==> n == len(p) && err == nil && wf(b) && others(b) && b.mallocSize == old(b.mallocSize) + len(p) && b.length == old(b.length) && rpos(b) == old(rpos(b)) && fpos(b) == old(fpos(b))
+//@   ensures n == len(p) && err == nil && others(b) && b.mallocSize == old(b.mallocSize) + len(p) && b.length == old(b.length) && rpos(b) == old(rpos(b)) && fpos(b) == old(fpos(b))
 //@   ensures old(len(p) > 4096) ==> b.write.mode & 1 == 1 && b.write.buf#arr == p#arr && b.write.buf#base == p#base
 //@   ensures old(len(p) > 0 && len(p) <= 4096) ==> b.write.mode & 1 == 0
 //@   ensures samepool()
@@ -306,14 +319,16 @@ package netpoll
 //@ func (*UnsafeLinkBuffer).WriteString
 //@   property C01 C03
 //@   requires wf(b)
+//@   ensures wf(b)
 //@   ensures old(len(s) == 0) ==> n == 0 && err == nil && unchanged(UnsafeLinkBuffer.mallocSize, UnsafeLinkBuffer.write, linkBufferNode.malloc, linkBufferNode.next, linkBufferNode.buf)
-//@   ensures old(len(s) > 0) ==> n == len(s) && err == nil && wf(b) && others(b) && b.mallocSize == old(b.mallocSize) + len(s) && b.length == old(b.length) && rpos(b) == old(rpos(b)) && fpos(b) == old(fpos(b))
+//@   ensures n == len(s) && err == nil && others(b) && b.mallocSize == old(b.mallocSize) + len(s) && b.length == old(b.length) && rpos(b) == old(rpos(b)) && fpos(b) == old(fpos(b))
 //@   ensures samepool()
 //@   modifies b.mallocSize, b.write, linkBufferNode.next, linkBufferNode.malloc, linkBufferNode.buf, linkBufferNode.own, linkBufferNode.ord, linkBufferNode.sp, mem, pool, blknode, cacheown, cacheidx
 
 //@ func (*UnsafeLinkBuffer).WriteByte
 //@   property C01
 //@   requires wf(b)
+//@   ensures wf(b)
 //@   ensures err == nil && wf(b) && others(b) && b.mallocSize == old(b.mallocSize) + 1 && b.length == old(b.length) && rpos(b) == old(rpos(b)) && fpos(b) == old(fpos(b))
 //@   ensures samepool()
 //@   modifies b.mallocSize, b.write, linkBufferNode.next, linkBufferNode.malloc, linkBufferNode.own, linkBufferNode.ord, linkBufferNode.sp, mem, pool, blknode, cacheown, cacheidx
@@ -348,6 +363,7 @@ package netpoll
 //@ func (*UnsafeLinkBuffer).resetTail
 //@   property C04
 //@   requires wf(b) && nopend(b)
+//@   ensures wf(b)
 //@   ensures wf(b) && nopend(b) && others(b) && b.length == old(b.length) && rpos(b) == old(rpos(b)) && fpos(b) == old(fpos(b))
 //@   ensures samepool()
 //@   modifies b.write, b.flush, linkBufferNode.next, linkBufferNode.own, linkBufferNode.ord, linkBufferNode.sp, pool, blknode, cacheown, cacheidx
@@ -356,6 +372,7 @@ package netpoll
 //@ func (*UnsafeLinkBuffer).calcMaxSize
 //@   property C04
 //@   requires wf(b)
+//@   ensures wf(b)
 //@   ensures sum >= 0
 //@   loop 1 invariant inb(b, node) && node.ord <= b.read.ord && sum >= 0
 
@@ -380,6 +397,7 @@ package netpoll
 //@ func (*UnsafeLinkBuffer).Release
 //@   property C01 C02 C03
 //@   requires wf(b)
+//@   ensures wf(b)
 //@   ensures err == nil && wf(b) && others(b) && b.length == old(b.length) && rpos(b) == old(rpos(b)) && fpos(b) == old(fpos(b)) && b.mallocSize == old(b.mallocSize)
 //@   ensures b.head == b.read && len(b.caches) == 0 && b.cachePeek == nil
 //@   modifies b.read, b.head, b.caches, b.cachePeek, linkBufferNode.refer, linkBufferNode.buf, linkBufferNode.origin, linkBufferNode.next, linkBufferNode.own, pool, mem:[]byte
@@ -387,7 +405,7 @@ package netpoll
 //@   loop 1 invariant inb(b, b.read) && b.read.ord >= old(b.read.ord) && b.read.ord <= b.flush.ord && rpos(b) == old(rpos(b))
 //@   loop 2 invariant wfs(b) && others(b) && b.length == old(b.length) && rpos(b) == old(rpos(b)) && fpos(b) == old(fpos(b)) && mpos(b) == old(mpos(b))
 //@   loop 2 invariant forall a int :: a > 0 && wasalloc(a) ==> blknode[a] == old(blknode[a]) && cacheown[a] == old(cacheown[a]) && cacheidx[a] == old(cacheidx[a])
-//@   loop 3 invariant -1 <= rangeindex && wfhead(b) && wfcur(b) && wflin(b) && wfclosed(b) && wfuniq(b) && wfnode(b) && wfshape(b) && wfpos(b) && wfref(b) && wfpool(b) && wfpeek(b)
+//@   loop 3 invariant -1 <= rangeindex && wfmono(b) && wfhead(b) && wfcur(b) && wflin(b) && wfclosed(b) && wfuniq(b) && wfnode(b) && wfshape(b) && wfpos(b) && wfref(b) && wfpool(b) && wfpeek(b)
 //@   loop 3 invariant others(b) && b.head == b.read && b.length == old(b.length) && rpos(b) == old(rpos(b)) && fpos(b) == old(fpos(b)) && mpos(b) == old(mpos(b))
 //@   loop 3 invariant len(b.caches) >= 0 && (b.caches != nil ==> allocated(b.caches)) && (b.cachePeek != nil ==> cacheown[b.cachePeek#arr] == nil)
 //@   loop 3 invariant forall i int {b.caches[i]#arr}{b.caches[i]#base}{b.caches[i]#cap} :: rangeindex < i && i < len(b.caches) ==> cacheok(b, i)
@@ -418,6 +436,7 @@ package netpoll
 //@ func (*UnsafeLinkBuffer).GetBytes
 //@   property C02 C04 C08
 //@   requires wf(b)
+//@   ensures wf(b)
 //@   ensures len(vs) >= 0 && (old(len(p)) > 0 ==> len(vs) <= old(len(p)) && vs#arr == p#arr && vs#base == p#base)
 //@   ensures forall k int {vnode[k]}{vs[k]#len}{vs[k]#arr} :: 0 <= k && k < len(vs) ==> vsentry(b, vs, k)
 //@   ensures len(vs) > 0 ==> vpos[0] == rpos(b)
@@ -435,3 +454,30 @@ package netpoll
 //@   loop 2 invariant i > 0 ==> vpos[0] == rpos(b)
 //@   loop 2 invariant forall k int {vpos[k]} :: 0 <= k && k + 1 < i ==> vpos[k + 1] == vpos[k] + len(p[k])
 //@   loop 2 invariant forall m *linkBufferNode :: m.mode == old(m.mode) || (inb(b, m) && m.mode == old(m.mode) | 2)
+
+//@ func (*UnsafeLinkBuffer).indexByte
+//@   property C01
+//@   requires wf(b) && skip >= 0
+//@   ensures wf(b)
+//@   ensures result == -1 || (skip <= result && result < b.length)
+//@   loop 1 invariant skip >= 0 && unread <= b.length && (unread > 0 ==> skip < unread) && b.length - unread + skip >= old(skip)
+//@   loop 1 invariant unread > 0 ==> inb(b, node) && node.ord >= b.read.ord && node.ord <= b.flush.ord && node.sp + node.off - rpos(b) == b.length - unread
+
+//@ func (*UnsafeLinkBuffer).Until
+//@   property C01 C02
+//@   requires wf(b)
+//@   ensures wf(b)
+//@   assume untilErr != nil
+//@   ensures err == nil ==> len(line) > 0 && wf(b) && rpos(b) == old(rpos(b)) + len(line) && b.length == old(b.length) - len(line)
+//@   ensures err != nil ==> unchanged(UnsafeLinkBuffer.length, UnsafeLinkBuffer.read, linkBufferNode.off, UnsafeLinkBuffer.cachePeek, UnsafeLinkBuffer.caches, linkBufferNode.mode)
+//@   ensures forall m *linkBufferNode :: !inb(b, m) ==> m.off == old(m.off) && m.mode == old(m.mode)
+//@   ensures forall a int :: a > 0 && wasalloc(a) ==> pool[a] == old(pool[a]) && blknode[a] == old(blknode[a]) && cacheown[a] == old(cacheown[a]) && cacheidx[a] == old(cacheidx[a])
+//@   modifies b.length, b.read, b.cachePeek, b.caches, linkBufferNode.off, linkBufferNode.mode, mem:[]byte, pool, blknode, cacheown, cacheidx
+
+//@ func (*UnsafeLinkBuffer).Bytes
+//@   property C16
+//@   requires wf(b)
+//@   ensures wf(b)
+//@   ensures len(result) == b.length && (fresh(result) || (result#arr == b.read.buf#arr && result#base == b.read.buf#base + b.read.off && b.read == b.flush))
+//@   loop 1 invariant inb(b, node) && node.ord >= b.read.ord && node.ord <= b.flush.ord && n == node.sp + node.off - rpos(b) && n >= 0
+//@   loop 1 invariant len(p) == b.length && fresh(p)
